@@ -2,6 +2,7 @@ package config
 
 import (
 	"fmt"
+	"math"
 	"regexp"
 	"strconv"
 	"strings"
@@ -461,7 +462,16 @@ func tryConvertToInt(v any) (int, bool) {
 		return value, true
 	case int64:
 		return int(value), true
+	case uint64:
+		// msgpack unsigned integer
+		if value > math.MaxInt64 {
+			return 0, false
+		}
+		return int(value), true
 	case float64:
+		return int(value), true
+	case float32:
+		// msgpack 32-bit float
 		return int(value), true
 	case bool:
 		return 0, false
@@ -483,6 +493,12 @@ func tryConvertToFloat(v any) (float64, bool) {
 	case int:
 		return float64(value), true
 	case int64:
+		return float64(value), true
+	case uint64:
+		// msgpack unsigned integer
+		return float64(value), true
+	case float32:
+		// msgpack 32-bit float
 		return float64(value), true
 	case bool:
 		return 0, false
